@@ -92,3 +92,17 @@ def run(chk, st, tier):
                             "as 1-page, multi-page and page-size-1 files, plus random workloads over the portfolio with 80% extreme values; every page of the real file is decoded by the extracted validator and Stats.stats_sound is evaluated "
                             "on its header statistics; sink writes (which contain the statistics) also compared with the model byte for byte. distinct = distinct workloads.")
     chk.coverage["explanation"] = "page_stats_sound (coq/props/C12.v) is proved for all pages about the accumulator model; stats_sound is also the oracle applied to the real pages."
+
+
+def _oracle(chk, r):
+    w = r["w"]
+    v = r["validate"]
+    key = "%s|c%d|p%d|%s|%s" % (w.shape.name, w.codec, w.max, w.tag, w.history())
+    if r["file"] is None or v is None or not v["valid"]:
+        chk.broke("oracle:C12", "cannot validate the replayed file: %s" % (v and v.get("error"),))
+    elif v["statsok"] != "1":
+        chk.fail(key, "%s: a page's statistics are unsound" % (w.describe(),), w.replay())
+
+
+def replay(chk, st, data):
+    Fm.replay_workload(chk, data, [_oracle], validate_level=0, read=False)
